@@ -5,7 +5,7 @@ HERE="$(cd "$(dirname "$0")/.." && pwd)"; WT=/tmp/wt/seedrun; OUT="$HERE/seeded/
 git -C /repo worktree remove --force "$WT" 2>/dev/null; git -C /repo worktree add -q --detach "$WT" HEAD || exit 2
 export VERIF_MAX_REPLAYS=25 VERIF_REPO="$WT" VERIF_EVIDENCE_DIR=/tmp/seed-evidence VERIF_REPLAY_DIR=/tmp/seed-replays
 : > "$OUT.new"
-for d in "$HERE"/seeded/C*-[mn][0-9]*; do
+for d in "$HERE"/seeded/${SEED_GLOB:-C*-[mnp][0-9]*}; do
   id=$(basename "$d"); prop=$(echo "$id" | cut -d- -f1)
   [ -n "$1" ] && [ "$prop" != "$1" ] && continue
   (cd "$WT" && git checkout -q -- . && git apply "$d/patch.diff") || { echo "$id patch-does-not-apply" >> "$OUT.new"; continue; }
